@@ -24,6 +24,9 @@
                                                    bytes, untouched ones are ee); flag = handle is NULL after open/close, spare bytes behind
                                                    a read buffer were modified
      OUT F <hex|missing|dir>                       file content afterwards
+     OUT F big <st_size> <st_blocks> {<off>:<hex|->}*   a file larger than BIGFILE bytes (sparse, family big-offset) is not read as
+                                                   a whole: fstat size and block count, then per write operation and rank the bytes
+                                                   found (pread) in the window [off, off + count*tsize) (`-` = nothing there)
      OUT S <fopen calls> <fclose calls> <streams left open>
      OUT E <rank> <stdio event>                    serial configuration only (the simulated one has them in the trace)
      TRACE-BEGIN ... TRACE-END                     simulated MPI only; stdio calls appear as notes `io ...`
@@ -33,6 +36,7 @@
 #include <errno.h>
 #include <sys/stat.h>
 #include <unistd.h>
+#include <fcntl.h>
 #ifdef C12_SIM
 #include <simmpi.h>
 #endif
@@ -478,8 +482,10 @@ prepare_file (scen_t * sc, const char *dir)
   }
 }
 
+#define BIGFILE 65536
+
 static void
-print_file (FILE * outf)
+print_file (FILE * outf, scen_t * sc)
 {
   struct stat         st;
   if (stat (G.path, &st) != 0) {
@@ -488,6 +494,29 @@ print_file (FILE * outf)
   }
   if (S_ISDIR (st.st_mode)) {
     fprintf (outf, "OUT F dir\n");
+    return;
+  }
+  if ((long long) st.st_size > BIGFILE) {
+    /* never read such a file as a whole: size, blocks, and the windows of the write operations */
+    int                 fd = open (G.path, O_RDONLY);
+    fprintf (outf, "OUT F big %lld %lld", (long long) st.st_size, (long long) st.st_blocks);
+    for (int i = 0; i < sc->nops; ++i) {
+      op_t               *o = &sc->ops[i];
+      if (o->kind != 'w' && o->kind != 'W')
+        continue;
+      for (int q = 0; q < (o->kind == 'w' ? 1 : sc->P); ++q) {
+        size_t              nb = (size_t) o->count[q] * o->tsize;
+        unsigned char      *buf = (unsigned char *) malloc (nb + 1);
+        ssize_t             got = (fd >= 0 && nb > 0) ? pread (fd, buf, nb, (off_t) o->off[q]) : 0;
+        char               *h = hexdump (buf, got > 0 ? (size_t) got : 0);
+        fprintf (outf, " %ld:%s", o->off[q], h);
+        free (h);
+        free (buf);
+      }
+    }
+    fprintf (outf, "\n");
+    if (fd >= 0)
+      close (fd);
     return;
   }
   FILE               *f = __real_fopen (G.path, "rb");
@@ -628,7 +657,7 @@ main (void)
     printf ("OUT S %d %d %d\n", G.nfopen, G.nfclose, G.ntracked);
     for (int i = 0; i < G.ntracked; ++i)
       __real_fclose (G.tracked[i]);
-    print_file (stdout);
+    print_file (stdout, &sc);
 #ifdef C12_SIM
     printf ("TRACE-BEGIN\n");
     {
@@ -705,7 +734,7 @@ main (int argc, char **argv)
       fprintf (outf, "OUT %d %d %s\n", rank, i, sc.res[rank][i] ? sc.res[rank][i] : "none");
     if (rank == 0) {
       fprintf (outf, "OUT S 0 0 0\n");
-      print_file (outf);
+      print_file (outf, &sc);
     }
     fprintf (outf, "END %d mem=%d\n", run, sc_memory_status (sc_package_id) - mem0);
     MPI_Barrier (MPI_COMM_WORLD);
